@@ -3,14 +3,19 @@
 the end), its own copy of the BEC crate pointing at that copy, its own evidence/replay directory. Each seeded change is applied to the
 worker's copy, the checks of the properties it breaks are run there (VERIF_REPO / VERIF_BEC_DIR / VERIF_BEC_TARGET / VERIF_OUT), and the
 copy is restored. Results are merged into seeded/RESULTS.json exactly as seedtest.py writes them.
-   usage: seedpar.py [-jN] [--thorough] [seed ids...]"""
+   usage: seedpar.py [-jN] [--thorough] [seed ids...]
+          seedpar.py --harmless [-jN] [ids...]   the same for the behaviour-preserving edits in harmless/: EVERY property's check is run on
+                                                 each; exit 1 anywhere is a false alarm (results: harmless/RESULTS.json, as harmless2.py writes them)"""
 import json, os, shutil, subprocess, sys, time, queue, threading
 V = os.path.dirname(os.path.dirname(os.path.abspath(__file__)))
 args = [a for a in sys.argv[1:] if not a.startswith('-')]
 N = int(next((a[2:] for a in sys.argv[1:] if a.startswith('-j')), '4'))
 tier = 'thorough' if '--thorough' in sys.argv else 'quick'
-seeds = args or sorted(d for d in os.listdir(os.path.join(V, 'seeded')) if os.path.isdir(os.path.join(V, 'seeded', d)))
-resf = os.path.join(V, 'seeded', 'RESULTS.json')
+HARMLESS = '--harmless' in sys.argv
+SRC = 'harmless' if HARMLESS else 'seeded'
+PROPS = [f'C{i:02d}' for i in range(1, 21)]
+seeds = args or sorted(d for d in os.listdir(os.path.join(V, SRC)) if os.path.isdir(os.path.join(V, SRC, d)))
+resf = os.path.join(V, SRC, 'RESULTS.json')
 results = json.load(open(resf)) if os.path.exists(resf) else {}
 assert subprocess.run(['git', '-C', '/repo', 'status', '--porcelain', '--untracked-files=no'], capture_output=True, text=True).stdout.strip() == '', '/repo not clean'
 q = queue.Queue()
@@ -42,8 +47,8 @@ def worker(i):
                 s = q.get_nowait()
             except queue.Empty:
                 return
-            d = os.path.join(V, 'seeded', s)
-            meta = json.load(open(os.path.join(d, 'meta.json')))
+            d = os.path.join(V, SRC, s)
+            meta = {'breaks': PROPS} if HARMLESS else json.load(open(os.path.join(d, 'meta.json')))
             r = subprocess.run(['git', 'apply', os.path.join(d, 'patch.diff')], cwd=repo, capture_output=True, text=True)
             if r.returncode != 0:
                 print(s, 'PATCH DOES NOT APPLY', r.stderr[:300], flush=True); continue
@@ -61,8 +66,13 @@ def worker(i):
                               'no_failing_input': any('no-failing-input-found' in l for l in lines)}
                     print(f'{s} {p}: exit {c.returncode}', (lines[0][:160] if lines else ''), flush=True)
                 with lock:
-                    results[s] = {'breaks': meta['breaks'], 'tier': tier, 'checks': out,
-                                  'caught': all(out[p]['exit'] == 1 for p in meta['breaks'] if p in out), 'other_alarms': []}
+                    if HARMLESS:
+                        results[s] = {'checks': {p: {'exit': out[p]['exit'], 'lines': out[p]['lines'], 's': out[p]['s']} for p in out},
+                                      'alarms': [p for p in PROPS if out[p]['exit'] == 1], 'undecided': [p for p in PROPS if out[p]['exit'] == 2],
+                                      'held': [p for p in PROPS if out[p]['exit'] == 0]}
+                    else:
+                        results[s] = {'breaks': meta['breaks'], 'tier': tier, 'checks': out,
+                                      'caught': all(out[p]['exit'] == 1 for p in meta['breaks'] if p in out), 'other_alarms': []}
                     json.dump(results, open(resf, 'w'), indent=1, ensure_ascii=False)
             finally:
                 subprocess.run('git checkout -q -- . && git clean -fdq', shell=True, cwd=repo, check=True)
@@ -73,6 +83,10 @@ def worker(i):
 ths = [threading.Thread(target=worker, args=(i,)) for i in range(N)]
 for t in ths: t.start()
 for t in ths: t.join()
+if HARMLESS:
+    al = {s: results[s]['alarms'] for s in seeds if s in results and results[s]['alarms']}
+    print('false alarms:', al)
+    sys.exit(1 if al else 0)
 missed = [s for s in seeds if s in results and not results[s]['caught']]
 print('missed:', missed)
 sys.exit(1 if missed else 0)
